@@ -15,7 +15,7 @@ func init() {
 		ID:      "C12",
 		Run:     runC12,
 		NeedSSA: true,
-		Level: "Static analysis (may-alias taint over go/ssa along the VTA call graph). Decides the statement as a may-alias property: with the byte-slice parameter of the parser entry point as source, no value derived from it (sub-slices, conversions between slice types, interface boxing, values loaded from local carriers, results of callees that return their argument, bytes.NewBuffer / Buffer.Bytes / net.IP.To4 …) is stored into memory that outlives the call, sent, captured by a goroutine, or returned — in any function reachable from Parse. Flow stops at copying operations (copy, append of bytes, Buffer.Write, binary.BigEndian.*, string conversion). An out-of-module callee that receives a derived value and has no model fails the run.",
+		Level:   "Static analysis (may-alias taint over go/ssa along the VTA call graph). Decides the statement as a may-alias property: with the byte-slice parameter of the parser entry point as source, no value derived from it (sub-slices, conversions between slice types, interface boxing, values loaded from local carriers, results of callees that return their argument, bytes.NewBuffer / Buffer.Bytes / net.IP.To4 …) is stored into memory that outlives the call, sent, captured by a goroutine, or returned — in any function reachable from Parse. Flow stops at copying operations (copy, append of bytes, Buffer.Write, binary.BigEndian.*, string conversion). An out-of-module callee that receives a derived value and has no model fails the run.",
 		Assumptions: []string{
 			"closed world: util.Message implementations outside the module are out of scope",
 			"standard-library aliasing models listed in checker/alias.go (stdModels)",
